@@ -29,6 +29,7 @@ type Run struct {
 	Bounds   [2]map[string]int
 	Needs    []string // vacuity witnesses that must be reached
 	ThoroughOnly bool
+	NativeLenient bool // native differential run may legitimately differ (real scheduler): disagreements are reported, not fatal
 	TimeBudgetS [2]int
 }
 
@@ -178,7 +179,7 @@ func cmdCheck(args []string) int {
 		for k, v := range r.Bounds[ti] {
 			cfg.Bounds[k] = v
 		}
-		ex := &sx.Explorer{P: prog, Cfg: cfg, Entry: entry, Workers: workers, SolverKind: "z3", TimeoutMS: 20000}
+		ex := &sx.Explorer{P: prog, Cfg: cfg, Entry: entry, Workers: workers, SolverKind: "z3", TimeoutMS: 20000, Seed: seed}
 		if r.TimeBudgetS[ti] > 0 {
 			ex.Deadline = time.Now().Add(time.Duration(r.TimeBudgetS[ti]) * time.Second)
 		}
@@ -186,6 +187,40 @@ func cmdCheck(args []string) int {
 		fmt.Printf("[%s %s] %s: paths=%d done=%d faults=%d dropped=%d cut=%d truncated=%d unsupported=%d queries=%d (unsat %d sat %d unknown %d) asserts=%d solver=%.1fs wall=%.1fs\n",
 			id, tier, r.Fn, rep.Paths, rep.Done, rep.Faults, rep.Dropped, rep.Cut, rep.Truncated, rep.Unsupported, rep.Queries, rep.NUnsat, rep.NSat, rep.NUnknown, rep.Asserts, rep.SolverS, rep.WallS)
 		ev.addReport(&r, rep, cfg)
+
+		// translator validation: sampled symbolic paths are re-run natively (real build, real libraries) under one
+		// model of their path condition; every assertion must pass there as well
+		if os.Getenv("VERIF_NO_NATIVE") == "" {
+			for si, smp := range rep.Samples {
+				model, _ := smp["one_model_of_path_condition"].(map[string]int64)
+				choices, _ := smp["choices"].(map[string]int64)
+				trace, _ := smp["trace_full"].([]string)
+				delete(smp, "trace_full")
+				cf := &cexFile{Property: id, Harness: r.Fn, Dir: r.Dir, Pkg: r.Pkg, Kind: "sample", Label: "", Model: model, Choices: choices, Trace: trace, Tier: tier}
+				if r.P[ti] == 0 {
+					cf.Trace = nil // sequential harness: no schedule to enforce
+				}
+				cexPath := filepath.Join(outDir, fmt.Sprintf("sample-%s-%d.json", r.Fn, si))
+				b, _ := json.MarshalIndent(cf, "", " ")
+				os.WriteFile(cexPath, b, 0o644)
+				verdict, detail := nativeSample(cf, cexPath, outDir)
+				smp["native_run"] = verdict
+				switch verdict {
+				case "agrees":
+					ev.NativeAgree++
+				case "skipped":
+					ev.NativeSkipped++
+				default:
+					ev.NativeDisagree = append(ev.NativeDisagree, r.Fn+": "+trunc(detail, 300))
+					if r.NativeLenient {
+						fmt.Printf("  note: native re-run of a sampled path of %s differs (schedule-dependent harness): %s\n", r.Fn, trunc(detail, 200))
+					} else {
+						fmt.Printf("INCONCLUSIVE: a sampled symbolic path of %s does not behave the same natively (encoding or stub defect): %s\n", r.Fn, trunc(detail, 400))
+						exit = max(exit, 2)
+					}
+				}
+			}
+		}
 
 		// inconclusive conditions
 		if rep.Unsupported > 0 {
@@ -382,7 +417,11 @@ func TestVerifReplay(t *testing.T) {
 
 // harnessFuncs lists the exported Verif* functions declared in the (non-test) harness files of dir that target pkg.
 func harnessFuncs(dir, pkg string) (pkgName string, fns []string) {
-	files, _ := filepath.Glob(filepath.Join(verifDir, "harness", dir, "*.go"))
+	var files []string
+	for _, d := range strings.Split(dir, ",") {
+		fs, _ := filepath.Glob(filepath.Join(verifDir, "harness", d, "*.go"))
+		files = append(files, fs...)
+	}
 	for _, f := range files {
 		if strings.HasSuffix(f, "_test.go") {
 			continue
@@ -415,7 +454,7 @@ func harnessFuncs(dir, pkg string) (pkgName string, fns []string) {
 
 // buildReplayBinary compiles the harness package's test binary natively with the overlay.
 func buildReplayBinary(dir, pkg, outDir string) (string, error) {
-	bin := filepath.Join(outDir, "replay_"+strings.ReplaceAll(dir+"_"+pkg, "/", "_")+".test")
+	bin := filepath.Join(outDir, "replay_"+strings.NewReplacer("/", "_", ",", "_").Replace(dir+"_"+pkg)+".test")
 	if _, err := os.Stat(bin); err == nil {
 		return bin, nil
 	}
@@ -433,7 +472,7 @@ func buildReplayBinary(dir, pkg, outDir string) (string, error) {
 		ents = append(ents, fmt.Sprintf("%q: %s", f, f))
 	}
 	testSrc := fmt.Sprintf(replayTestTmpl, pkgName, strings.Join(ents, ", "))
-	testReal := filepath.Join(outDir, "zz_verif_replay_"+strings.ReplaceAll(dir+"_"+pkg, "/", "_")+"_test.go")
+	testReal := filepath.Join(outDir, "zz_verif_replay_"+strings.NewReplacer("/", "_", ",", "_").Replace(dir+"_"+pkg)+"_test.go")
 	if err := os.WriteFile(testReal, []byte(testSrc), 0o644); err != nil {
 		return "", err
 	}
@@ -443,7 +482,7 @@ func buildReplayBinary(dir, pkg, outDir string) (string, error) {
 	}
 	repl[filepath.Join(repoDir, pkg, "zz_verif_replay_test.go")] = testReal
 	ovb, _ := json.Marshal(map[string]any{"Replace": repl})
-	ovPath := filepath.Join(outDir, "overlay_"+strings.ReplaceAll(dir+"_"+pkg, "/", "_")+".json")
+	ovPath := filepath.Join(outDir, "overlay_"+strings.NewReplacer("/", "_", ",", "_").Replace(dir+"_"+pkg)+".json")
 	os.WriteFile(ovPath, ovb, 0o644)
 	target := "./" + pkg
 	if pkg == "" {
@@ -587,3 +626,39 @@ func cmdReplay(args []string) int {
 }
 
 func cmdSelftest(args []string) int { return 2 }
+
+// nativeSample runs one sampled path natively: "agrees" (no assertion failed, no panic), "skipped" (an assumption
+// does not hold natively, e.g. clock dependent), or "differs".
+func nativeSample(cf *cexFile, cexPath, outDir string) (string, string) {
+	bin, err := buildReplayBinary(cf.Dir, cf.Pkg, outDir)
+	if err != nil {
+		return "differs", err.Error()
+	}
+	cmd := exec.Command(bin, "-test.run", "^TestVerifReplay$", "-test.count=1", "-test.timeout=60s")
+	cmd.Dir = filepath.Join(repoDir, cf.Pkg)
+	cmd.Env = append(os.Environ(), "VERIF_MODEL="+cexPath, "VERIF_HARNESS="+cf.Harness, "VERIF_TIER="+cf.Tier)
+	var buf bytes.Buffer
+	cmd.Stdout, cmd.Stderr = &buf, &buf
+	done := make(chan error, 1)
+	cmd.Start()
+	go func() { done <- cmd.Wait() }()
+	select {
+	case <-done:
+	case <-time.After(90 * time.Second):
+		cmd.Process.Kill()
+		return "differs", "native run timed out"
+	}
+	out := buf.String()
+	for _, l := range strings.Split(out, "\n") {
+		if strings.HasPrefix(l, "VERIF-REPLAY ") {
+			switch {
+			case strings.Contains(l, "skipped=\"\"") && strings.Contains(l, "failures=[]") && strings.Contains(l, "panic=<nil>"):
+				return "agrees", l
+			case !strings.Contains(l, "skipped=\"\""):
+				return "skipped", l
+			}
+			return "differs", l
+		}
+	}
+	return "differs", firstLines(out, "", 4)
+}
